@@ -30,7 +30,7 @@ PARALLEL = True
 CASE_TIMEOUT = 120
 RULE = ("one case = one outer optimizer step on a real Plan (plus all inner optimizer runs of its nested plan). Masks: every "
         "mask with at least one free variable for V <= 4 in rotation (incl. no mask, all-free, single-free), sampled masks for "
-        "V in 5..8. The step starts from the configured initial values or (40% of the runs without a scaler) from an explicit "
+        "V in 5..8; the mask is written as booleans, as 0/1 integers or as an integer / boolean ndarray. The step starts from the configured initial values or (40% of the runs without a scaler) from an explicit "
         "variables= vector inside the bounds that differs from them also on the fixed positions; in 15% the same step object "
         "has already run once on the same plan. Optimizer: scripted plug-in (1-6 requests: function, gradient, both, batches of "
         "1-3 rows, gradient-only requests at the point of an earlier function request or of the first/last row of an earlier "
@@ -210,7 +210,10 @@ def gen_one(rng, mask_hint=-1, force=None):
             "warmup": force.get("warmup", rng.random() < 0.15),
             # the scripted optimizer overwrites, in place, the arrays it was handed (initial values, returned functions
             # and gradients) and the request arrays it passed, as an optimizer using them as work space does
-            "scribble": rng.random() < 0.4}
+            "scribble": rng.random() < 0.4,
+            # how the mask is written in the configuration: booleans, 0/1 integers (as read from JSON/YAML), or an ndarray of
+            # either kind -- all of them denote the same mask
+            "mask_repr": rng.choice(["bool", "bool", "int", "int", "ndarray_int", "ndarray_bool"])}
     if opt_kind == "scripted":
         case["opt"] = {"kind": "scripted",
                        "script": _script(rng, bounds, eff_mask, outside_ok=not nested, allow_batch=True,
@@ -246,6 +249,17 @@ def _to_opt(case, vals):
     return [(v - o) / s for v, s, o in zip(vals, sc["scales"], sc["offsets"])]
 
 
+def _mask_as(mask, how):
+    import numpy as np
+    if how == "int":
+        return [int(m) for m in mask]
+    if how == "ndarray_int":
+        return np.array([int(m) for m in mask], dtype=np.int64)
+    if how == "ndarray_bool":
+        return np.array(mask, dtype=np.bool_)
+    return [bool(m) for m in mask]
+
+
 def _config_dict(case, mask, script, tag, gs, sconfs):
     V = case["V"]
     opt = case["opt"]
@@ -270,7 +284,7 @@ def _config_dict(case, mask, script, tag, gs, sconfs):
                       else {"method": s["kind"], "shared": s["shared"]}) for s in sconfs],
     }
     if mask is not None:
-        d["variables"]["mask"] = mask
+        d["variables"]["mask"] = _mask_as(mask, case.get("mask_repr", "bool"))
     if gs is not None:
         d["gradient"]["samplers"] = gs
     if case["nc"]:
@@ -733,6 +747,7 @@ def features(case, obs):
     return {"V": case["V"], "mask": kind, "optimizer": o["kind"] if o["kind"] == "scripted" else o["method"],
             "nested": case["nested"] is not None, "scaler": case["scaler"] is not None,
             "start": "explicit" if case.get("start") is not None else "configured", "warmup": bool(case.get("warmup")),
+            "mask_written_as": case.get("mask_repr", "bool") if mask is not None else "-",
             "relative": RELATIVE in case.get("pts", []), "relative_on_fixed_infinite": case.get("rel_fixed") is not None,
             "rejected": _rejected(obs),
             "scribble": bool(case.get("scribble")) and o["kind"] == "scripted",
